@@ -15,7 +15,7 @@ from typing import Any, Dict, List, Optional, Tuple
 import z3
 
 from .. import pysym
-from ..common import REPO, Inconclusive, Scratch, seed, tier
+from ..common import REPO, Inconclusive, Scratch, TimeLimit, seed, tier, time_limit
 from ..pysym import Engine, ZInt
 from . import c08, c13
 
@@ -98,6 +98,7 @@ def explore_template(name: str, ttext: str, files: Dict[str, str], render: bool,
             return proto
 
         try:
+          with time_limit(TEMPLATE_LIMIT):
             for p in eng.explore(h):
                 res["obligations"] += 1
                 e = p.exc
@@ -117,9 +118,39 @@ def explore_template(name: str, ttext: str, files: Dict[str, str], render: bool,
                                           "info": {"kind": "escape", "exc": type(e).__name__, "key": f"{type(e).__name__}@{tb.split('@')[-1].strip()}", "frame": [tb]}})
         except Inconclusive as e:
             res["inconclusive"].append(f"{name}: {type(e).__name__}: {e}")
+        except TimeLimit:
+            # `never hangs`: is it the compiler or the engine?  The same text (placeholders as literals) through the real CLI
+            cfiles = dict(files)
+            cfiles[MAIN] = text
+            if cli_hangs(cfiles, MAIN):
+                res["violations"].append({"what": f"{name}: the real command line does not finish within {CLI_LIMIT} s on a {len(text)}-character schema (stage reached symbolically: {stage['s']}): {text[:120]!r}",
+                                          "payload": {"kind": "hang-cli", "files": cfiles, "main": MAIN}, "confirmed": True, "info": {"kind": "hang", "key": "hang-cli"}})
+            else:
+                res["inconclusive"].append(f"{name}: exploration exceeded {TEMPLATE_LIMIT} s at stage {stage['s']}; the real command line finishes on the same text")
     for k in ("paths", "queries", "unsat", "sat", "unknown"):
         res[k] += eng.stats.get(k, 0)
     res["solver_s"] += eng.stats.get("solver_s", 0.0)
+
+
+TEMPLATE_LIMIT = 120
+CLI_LIMIT = 20
+
+
+def cli_hangs(files: Dict[str, str], main: str) -> bool:
+    import subprocess
+
+    from ..common import VENV_PY
+
+    with Scratch() as sc:
+        for fn, txt in files.items():
+            with open(sc.path(fn), "w") as f:
+                f.write(txt)
+        os.makedirs(sc.path("out"), exist_ok=True)
+        try:
+            subprocess.run([VENV_PY, "-m", "bitproto._main", "py", sc.path(main), sc.path("out"), "-q"], capture_output=True, text=True, timeout=CLI_LIMIT, env={**os.environ, "PYTHONPATH": os.path.join(REPO, "compiler")})
+        except subprocess.TimeoutExpired:
+            return True
+    return False
 
 
 # ---- part A: the C08 catalogue and the C13 expression shapes (division!) as totality templates
@@ -259,7 +290,7 @@ def main() -> int:
     muts = mutation_jobs(q)
     chunks = [muts[i:i + 60] for i in range(0, len(muts), 60)]
     parts = [("catalogue+render", work_catalogue, cat), ("expressions", work_expr, [(s, i) for i, s in enumerate(sh)]), ("token-mutations", work_mut, chunks), ("edge-render", work_edge, EDGE),
-             ("lexer-escape-loop-crosshair", work_escape, [0]), ("lexer-regex-inclusion", work_regex, [0])]
+             ("lexer-escape-loop-crosshair", work_escape, [0]), ("lexer-regex-inclusion", work_regex, [0]), ("lexer-regex-backtracking", work_redos, [0])]
     meta = {
         "functions_encoded": FILES,
         "token_mutations": len(muts),
@@ -347,10 +378,110 @@ def work_regex(_: Any) -> Dict[str, Any]:
     return res
 
 
+HANG_PROBE = r'''
+import sys, time
+sys.path.insert(0, sys.argv[1])
+from bitproto.lexer import Lexer
+from bitproto.errors import LexerError
+lx = Lexer(); lx.input(open(sys.argv[2]).read())
+try:
+    while lx.token() is not None:
+        pass
+except LexerError:
+    pass
+print("done")
+'''
+
+
+def work_redos(_: Any) -> Dict[str, Any]:
+    """(b3) `never hangs`, lexer side: no repetition in a token regex (read from the current source) has a body that
+    matches one word both in one round and split over several rounds, or the empty word -- the condition under which
+    the backtracking `re` engine needs exponential time on an input that finally fails.  A sat answer is pumped into
+    an unterminated token and handed to the real lexer under a time limit."""
+    import subprocess
+
+    from .. import rx
+    from ..common import VENV_PY
+    from ..compile import load_plain_compiler
+
+    res = _res("lexer-regex-backtracking")
+    load_plain_compiler()
+    from bitproto.lexer import Lexer
+
+    rules = {}
+    for name in sorted(dir(Lexer)):
+        if not name.startswith("t_") or name in ("t_ignore", "t_error"):
+            continue
+        a = getattr(Lexer, name)
+        src = a if isinstance(a, str) else getattr(a, "__doc__", None)
+        if isinstance(src, str):
+            rules[name] = src
+    if len(rules) < 8:
+        res["inconclusive"].append(f"only {len(rules)} token rules found in the lexer (expected its t_* rules)")
+    for name, src in rules.items():
+        try:
+            bodies = rx.star_bodies(src, verbose=True)
+        except Inconclusive as e:
+            res["inconclusive"].append(f"{name}: {e}")
+            continue
+        for bi, body in enumerate(bodies):
+            res["obligations"] += 1
+            res["paths"] += 1
+            t0 = time.time()
+            r, w = rx.ambiguous_star(body)
+            res["queries"] += 1
+            res["solver_s"] += time.time() - t0
+            res[r] = res.get(r, 0) + 1
+            if r == "unknown":
+                res["inconclusive"].append(f"{name}: z3 unknown on the ambiguity query of repetition #{bi}")
+                continue
+            if r == "unsat":
+                if len(res["samples"]) < 3:
+                    res["samples"].append({"rule": name, "regex": src, "repetition": bi, "verdict": "no word (<= 8 chars) is matched by the body both in one and in several rounds (unsat)"})
+                continue
+            word = _z3str(w or "") or "a"
+            # pump: the start of a token of this rule, then the ambiguous word many times, never the terminator
+            head = {"t_STRING_LITERAL": '"', "t_COMMENT": "//", "t_HEX_LITERAL": "0x", "t_UINT_TYPE": "uint", "t_INT_TYPE": "int"}.get(name, "")
+            hung = None
+            with Scratch() as sc:
+                for k in (20, 28, 40):
+                    open(sc.path("in.bitproto"), "w").write("proto p\nconst A = " + head + word * k + "\n")
+                    try:
+                        subprocess.run([VENV_PY, "-c", HANG_PROBE, os.path.join(REPO, "compiler"), sc.path("in.bitproto")], capture_output=True, text=True, timeout=10)
+                    except subprocess.TimeoutExpired:
+                        hung = k
+                        break
+            if hung is None:
+                res["inconclusive"].append(f"{name}: repetition #{bi} of {src!r} is ambiguous on {word!r}, but the real lexer still answers within 10 s on pumped inputs")
+            else:
+                text = "proto p\nconst A = " + head + word * hung + "\n"
+                res["violations"].append({"what": f"{name}: repetition #{bi} of {src!r} matches {word!r} both in one and in several rounds; the real lexer does not finish within 10 s on a {len(text)}-character input ({head + word * 3}... without terminator)",
+                                          "payload": {"kind": "hang", "files": {MAIN: text}, "main": MAIN}, "confirmed": True, "info": {"kind": "hang", "key": f"lexer-hang-{name}"}})
+    return res
+
+
 def replay(path: str) -> int:
     import json
 
     p = json.load(open(path))
+    if p.get("kind") == "hang-cli":
+        h = cli_hangs(p["files"], p["main"])
+        print(f"FAILS: the real command line does not finish within {CLI_LIMIT} s" if h else "passes: the real command line finishes")
+        return 1 if h else 0
+    if p.get("kind") == "hang":
+        import subprocess
+
+        from ..common import VENV_PY
+
+        with Scratch() as sc:
+            open(sc.path("in.bitproto"), "w").write(p["files"][p["main"]])
+            try:
+                subprocess.run([VENV_PY, "-c", HANG_PROBE, os.path.join(REPO, "compiler"), sc.path("in.bitproto")], capture_output=True, text=True, timeout=10)
+            except subprocess.TimeoutExpired:
+                print("FAILS: the real lexer does not finish within 10 s")
+                return 1
+        print("passes: the real lexer finishes")
+        return 0
     tb = cli_traceback(p["files"], p["main"], (None, "c", "go", "py"))
     print("FAILS: " + tb if tb else "passes: no traceback from the real CLI")
     return 1 if tb else 0
